@@ -11,7 +11,11 @@ def findCh (c : Char) : Str → Option Nat
   | [] => none
   | x :: xs => if x = c then some 0 else (findCh c xs).map (· + 1)
 
-def isWs (c : Char) : Bool := c = ' ' || c = '\t' || c = '\n' || c = '\r' || c = '\x0b' || c = '\x0c'
+/-- Rust's `char::is_whitespace` (Unicode `White_Space`): what `trim_start` / `trim` strip -/
+def isWs (c : Char) : Bool :=
+  let n := c.toNat
+  (9 ≤ n && n ≤ 13) || n = 0x20 || n = 0x85 || n = 0xA0 || n = 0x1680 || (0x2000 ≤ n && n ≤ 0x200A) ||
+  n = 0x2028 || n = 0x2029 || n = 0x202F || n = 0x205F || n = 0x3000
 def trimStartWs : Str → Str
   | [] => []
   | c :: cs => if isWs c then trimStartWs cs else c :: cs
@@ -54,7 +58,8 @@ def parseRenameFrom : Nat → Str → Option Str
     | none => none
     | some pos =>
       let after := tokens.drop (pos + 6)
-      if startsWith (trimStartWs after) kwAll then parseRenameFrom fuel (tokens.drop (pos + 10))
+      if startsWith (trimStartWs after) kwAll then
+        parseRenameFrom fuel (tokens.drop (pos + 6 + (after.length - (trimStartWs after).length) + 4))
       else
         match findCh '=' after with
         | none => none
